@@ -160,7 +160,8 @@ var Int = NewScalar(ScalarConfig{
 		switch valueAST := valueAST.(type) {
 		case *ast.IntValue:
 			if intValue, err := strconv.Atoi(valueAST.Value); err == nil {
-				return intValue
+				// same 32-bit range check as for variable values
+				return coerceInt(intValue)
 			}
 		}
 		return nil
